@@ -283,7 +283,7 @@ impl Prop for C05 {
         "Inputs: (1) random bytes of length 0..=4096 biased to 0..=0x60; (2) structure-aware mutation of valid files - the repository's test files and files produced by the generators of C01 (reference writer), C06, C15, C16, C17, C18: \
          a boundary value {0,1,3,4,len+-4,data+-4,0x0FFFFFFF,0x1FFFFFFF,0x20000000,0x3FFFFFFF,0x40000000,0x7FFFFFFF,0x80000000,0xFFFFFFE0,0xFFFFFFFC,0xFFFFFFFF} planted in any 32-bit word (weighted to the header) in either endianness, 16-bit plants, \
          header triples chosen so that data + 4*np + 8*nl wraps modulo 2^32 to a small number, truncation to any length, byte flips, NUL removal from the text section, in-file splices, appended bytes; 1..=3 mutations per case. \
-         Bounded-exhaustive: every palette value in every word of the first 2 KiB and every truncation length of every repository test file. Every input is fed to ALL entry points: BinArchive::from_bytes (LE, BE) -> serialize, \
+         Bounded-exhaustive: every palette value, len+-4 and data+-4 in every word of the first 2 KiB and every truncation length of every repository test file; boundary (address, size) pairs in every entry of the repository's pack file; UTF-16 text archives whose data ends inside a code unit. Every input is fed to ALL entry points: BinArchive::from_bytes (LE, BE) -> serialize, \
          TextArchive::from_bytes (Unicode/ShiftJIS x LE/BE) -> serialize, arc::from_bytes, fe9_arc::parse -> serialize, and ASetFile/AssetBinary::from_archive on every accepted LE archive -> serialize. Oracle per call: it returns (no panic; no abort - worker isolation), \
          the largest single allocation requested during the call is <= 64*len + 1 MiB (allocation monitor; requests above 1 GiB are refused), a bin/text/arc header or pack count/entry that declares more than the buffer holds (computed in u128 by the harness) gives Err, \
          anything Ok is re-serialized without panicking; both builds, per-input Ok/Err outcome digests compared between builds. Non-trivial: the input passes the first size gate of at least one parser, or carries a planted field. Distinct = distinct case value."
@@ -355,8 +355,15 @@ impl Prop for C05 {
                         }
                     }
                 }
+                let file_be = name.contains("Legacy") || name.contains("FE9");
                 for d in [-4i8, -1, 0, 1, 4] {
-                    if !emit(Case { source: Source::RepoFile(name.clone()), mutations: vec![Mutation::PlantU32 { pos: sel, value: Plant::Len(d), be: name.contains("Legacy") || name.contains("FE9"), header_only: false }] }) {
+                    if !emit(Case { source: Source::RepoFile(name.clone()), mutations: vec![Mutation::PlantU32 { pos: sel, value: Plant::Len(d), be: file_be, header_only: false }] }) {
+                        return;
+                    }
+                }
+                // values just above the data size: a pointer cell then points into the pointer/label tables
+                for d in [-1i8, 1, 2, 3, 4] {
+                    if !emit(Case { source: Source::RepoFile(name.clone()), mutations: vec![Mutation::PlantU32 { pos: sel, value: Plant::Data(d), be: file_be, header_only: false }] }) {
                         return;
                     }
                 }
@@ -379,6 +386,50 @@ impl Prop for C05 {
                             return;
                         }
                     }
+                }
+            }
+        }
+        // pack entries: every (address, size) pair of the repository's pack file replaced by boundary pairs (big-endian),
+        // in particular an empty entry pointing far outside the buffer
+        {
+            let name = "FE9Arc.bin".to_string();
+            let bytes = super::read_repo_test_file(&name);
+            if bytes.len() >= 8 && &bytes[..4] == b"pack" {
+                let len = bytes.len();
+                let count = u16::from_be_bytes([bytes[4], bytes[5]]) as usize;
+                let total = len / 4;
+                let exact = |w: usize| -> u16 {
+                    let mut sel = (((w as u64) << 16) / total as u64) as u16;
+                    while ((sel as usize * total) >> 16) < w {
+                        sel += 1;
+                    }
+                    sel
+                };
+                for i in 0..count.min(64) {
+                    let (aw, sw) = ((8 + 16 * i + 8) / 4, (8 + 16 * i + 12) / 4);
+                    for addr in [Plant::Len(0), Plant::Len(1), Plant::Abs(0x7FFF_FFFF), Plant::Abs(0xFFFF_FFFF), Plant::Abs(0)] {
+                        for size in [Plant::Abs(0), Plant::Abs(1), Plant::Len(0), Plant::Abs(0xFFFF_FFFF)] {
+                            if !emit(Case {
+                                source: Source::RepoFile(name.clone()),
+                                mutations: vec![Mutation::PlantU32 { pos: exact(aw), value: addr.clone(), be: true, header_only: false }, Mutation::PlantU32 { pos: exact(sw), value: size.clone(), be: true, header_only: false }],
+                            }) {
+                                return;
+                            }
+                        }
+                    }
+                }
+            }
+        }
+        // UTF-16 text archives whose data region ends in the middle of a code unit (odd length, no terminator)
+        for tail in [vec![0x41u8, 0, 0x42, 0, 0], vec![0x41, 0, 0x42, 0, 0x43], vec![0x41, 0, 0x42, 0, 0x43, 0, 0], vec![0, 0, 0x41, 0, 0x42, 0, 0], vec![0x41, 0, 0x42]] {
+            for be in [false, true] {
+                let mut data = vec![b't', 0, 0, 0];
+                data.extend_from_slice(&tail);
+                let mut labels = std::collections::BTreeMap::new();
+                labels.insert(4u32, vec!["K".to_string()]);
+                let content = ArchiveContent { big_endian: be, data, cells: Default::default(), labels };
+                if !emit(Case { source: Source::Archive(content), mutations: vec![] }) {
+                    return;
                 }
             }
         }
